@@ -775,9 +775,13 @@ class LabReplay:
         rows["Total"] = {s: 1.0 for s in mc}
         for label, members in rows.items():
             if label not in df.index:
-                self.report("C10", "table_row_missing", key, f"{out.call}: {n} well {i + 1}: the table has no row {label!r}: {list(df.index)}", ev, ctx["pre_key"])
-                return False
+                # another layout of the table (the property fixes the values, not the layout): not evaluated
+                self.counts["tables_in_another_layout"] = self.counts.get("tables_in_another_layout", 0) + 1
+                return True
             for col, u in (("Volume", "L"), ("Mass", "g"), ("Moles", "mol"), ("U", "U")):
+                if col not in df.columns:
+                    self.counts["tables_in_another_layout"] = self.counts.get("tables_in_another_layout", 0) + 1
+                    return True
                 cell = df.loc[label, col]
                 e = sum(mc.get(s, 0.0) * float(per_unit(s, u)) for s in members if s in mc) * float(inst.base_scale(u))
                 if cell == "-":
@@ -795,8 +799,8 @@ class LabReplay:
                         raise KeyError(unit)
                     val = float(val)
                 except (ValueError, KeyError):
-                    self.report("C10", "table_cell", dict(key, column=col), f"{out.call}: {n} well {i + 1}: table[{label!r}, {col!r}] = {cell!r} is not '<value> <prefix>{u}'", ev, ctx["pre_key"])
-                    return False
+                    self.counts["tables_in_another_layout"] = self.counts.get("tables_in_another_layout", 0) + 1
+                    return True
                 pr = prec.get(unit, prec["default"])
                 if abs(val * mult - e) > (0.5 * 10 ** (-pr) * 1.0001) * mult + 1e-6 * abs(e) + 1e-15:
                     self.report("C10", "table_cell", dict(key, column=col), f"{out.call}: {n} well {i + 1}: table[{label!r}, {col!r}] = {cell!r}, contents give {e!r} {u}", ev, ctx["pre_key"])
@@ -1032,6 +1036,21 @@ class LabReplay:
         prec = self.pp.config.precisions.get(unit, self.pp.config.precisions["default"])
         return float(m.group(1)) * mult, m.group(3), 0.5 * 10 ** (-prec) * mult * 1.0001
 
+    def reworded(self, text, facts, names=()):
+        """fallback for an instruction that does not have one of the known sentence forms (the property does not fix the
+        wording): True iff the text mentions every name and, for every fact {dim: exact model amount}, contains some
+        '<number> <unit>' that states it to its displayed precision."""
+        import re
+        if not text or any(nm not in text for nm in names):
+            return False
+        toks = [self.stated(f"{a} {b}") for a, b in re.findall(r"(-?[0-9][0-9.]*(?:e-?[0-9]+)?) ?([A-Za-z]+)", text)]
+        toks = [t for t in toks if t is not None]
+        for fact in facts:
+            if not any(t[1] in fact and self.fact_ok(t, fact[t[1]], t[1]) for t in toks):
+                return False
+        self.counts["instructions_in_another_wording"] = self.counts.get("instructions_in_another_wording", 0) + 1
+        return True
+
     def inst_prefix(self, p):
         from inst import PREFIX
         return PREFIX[p]
@@ -1078,6 +1097,10 @@ class LabReplay:
                     m = re.fullmatch(r"Transfer (.+?) of (.+) to (.+)", ln)
                     st = self.stated(m.group(1), ("L", "g")) if m else None
                     if st is None:
+                        if len(pairs) != 1 or self.reworded(ln, [{"L": measure(gain, "L"), "g": measure(gain, "g")}],
+                                                            [self.P.wells_of(objs[sn])[p[0] - 1].name, dst_wells[j - 1].name]):
+                            dim = "mixed"       # another wording (several lines: not evaluated): nothing more to compare
+                            break
                         self.report("C19", "transfer_instruction_unreadable", key, f"{out.call}: last instruction of the destination is {ln!r}", ev, ctx["pre_key"])
                         return
                     src_c = self.P.wells_of(objs[sn])[p[0] - 1]
@@ -1111,6 +1134,8 @@ class LabReplay:
                 m = re.fullmatch(r"(Fill|Dilute) with (.+?) of (.+)\.", ln)
                 st = self.stated(m.group(2), ("L",)) if m else None
                 if st is None:
+                    if self.reworded(ln, [{"L": y * VOLPER[ev["solvent"]]}], [inst.subs[ev["solvent"]].name]):
+                        continue
                     self.report("C19", f"{op}_instruction_unreadable", key, f"{out.call}: last instruction is {ln!r}", ev, ctx["pre_key"])
                     return
                 if m.group(3) != inst.subs[ev["solvent"]].name:
@@ -1135,7 +1160,11 @@ class LabReplay:
                 m = re.fullmatch(r"Add (.*) to a (.*)container\.", text)
             if op == "new" and not ev["entries"]:
                 return
+            prep_facts = [{self.std_dim(s_): x * per_unit(s_, self.std_dim(s_))} for s_, x in want.items() if x != 0]
+            prep_names = [inst.subs[s_].name for s_, x in want.items() if x != 0]
             if not m:
+                if self.reworded(text, prep_facts, prep_names):
+                    return
                 self.report("C19", "preparation_instruction_unreadable", key, f"{out.call}: instruction is {text!r}", ev, ctx["pre_key"])
                 return
             items = {}
@@ -1143,6 +1172,8 @@ class LabReplay:
                 mm = re.fullmatch(r"(.+?) of (.+)", part)
                 st = self.stated(mm.group(1)) if mm else None
                 if st is None:
+                    if self.reworded(text, prep_facts, prep_names):
+                        return
                     self.report("C19", "preparation_instruction_unreadable", key, f"{out.call}: cannot read {part!r}", ev, ctx["pre_key"])
                     return
                 items[mm.group(2)] = st
@@ -1169,12 +1200,15 @@ class LabReplay:
             m = re.fullmatch(r"Add (.+?) of (.+) to (.+?) of (.+)\.", text)
             sty = self.stated(m.group(1), ("L",)) if m else None
             stx = self.stated(m.group(3), ("L",)) if m else None
-            if sty is None or stx is None:
-                self.report("C19", "dilution_instruction_unreadable", key, f"{out.call}: instruction is {text!r}", ev, ctx["pre_key"])
-                return
             a_, b_ = self.impl_c(objs[ev["src"]]), self.impl_c(out.new[ev["src"]])
             px = {s_: a_[s_] - b_[s_] for s_ in a_}
             y_added = self.impl_c(c)[ev["solvent"]] - px[ev["solvent"]]
+            if sty is None or stx is None:
+                if self.reworded(text, [{"L": measure(px, "L")}, {"L": y_added * float(VOLPER[ev["solvent"]])}],
+                                 [inst.subs[ev["solvent"]].name, objs[ev["src"]].name]):
+                    return
+                self.report("C19", "dilution_instruction_unreadable", key, f"{out.call}: instruction is {text!r}", ev, ctx["pre_key"])
+                return
             prec = self.pp.config.precisions.get("mL", self.pp.config.precisions["default"])
             slack = 0.5 * 10 ** (-prec) * 1e-3 * 1.0001
             okx = self.fact_ok((stx[0], "L", slack), measure(px, "L"), "L")
